@@ -10,3 +10,51 @@ register('C08', title='minimum-run filter',
          floors={'quick': {'nontrivial': 1000}, 'thorough': {'nontrivial': 10000}},
          assumptions=['min_n_cycles in [0, inf] is the documented range; negative must raise ValueError'],
          quick_shards=8, thorough_shards=16)
+
+register('C03', title='flank midpoints',
+         deciding=['find_zerox'],
+         rule='exhaustive: every integer signal over {-1,0,1,2} of length 2..L (L=6 quick, 8 thorough) x every '
+              'alternating peak/trough index sequence (every subset of >=2 positions, both starting kinds); generated: '
+              'extrema from find_extrema on all signal families. Non-trivial = a flank with >=2 crossings, a tie with the '
+              'half height, or a fallback branch (all-zero, inverted, no crossing); distinct_nontrivial counts at most 50 '
+              'flanks per (branch kind, shard) for the enumerated space plus each generated signal with such a flank '
+              '(conservative: the enumeration contains far more).',
+         floors={'quick': {'nontrivial': 200, 'classes': {'flanks:multi_even': 100, 'flanks:inverted': 100,
+                                                          'flanks:allzero': 100}},
+                 'thorough': {'nontrivial': 500}},
+         assumptions=['tie conventions: rise crossing at i iff seg[i] <= mid < seg[i+1], decay iff seg[i] > mid >= seg[i+1]',
+                      'no crossing although the flank is neither inverted nor zero: any sample of the flank accepted'],
+         quick_shards=12, thorough_shards=16, thorough_timeout=7200)
+
+register('C02', title='extrema of narrowband half-waves',
+         deciding=['find_extrema'],
+         rule='generated: all signal families (tie-rich quantised/clipped/plateau/zeroed and adversarial-tail families '
+              'over-sampled) x fs x f_range x filter length (n_cycles | n_seconds | default) x boundary x first_extrema x pad. '
+              'Oracle: independent band-pass with the documented arguments, explicit scan of the sign sequence, window '
+              '[crossing, next crossing), first arg-max/min by explicit scan, un-pad, boundary, first_extrema trimming; exact '
+              'comparison. Non-trivial = >=3 extrema of each kind and >=1 window whose extremum is not the window centre; '
+              'distinct by SHA-1 of the materialised case.',
+         floors={'quick': {'nontrivial': 100, 'classes': {'windows_with_ties': 20, 'first_extrema=None': 20,
+                                                          'first_extrema=peak': 20, 'first_extrema=trough': 20}},
+                 'thorough': {'nontrivial': 5000}},
+         assumptions=['neurodsp.filt.filter_signal(sig padded by ceil(filt_len/2) zeros, remove_edges=False, **filter_kwargs) '
+                      'is the definition of the band-pass-filtered signal',
+                      'half-wave window = [crossing sample, next crossing sample); exactly-zero band-passed samples: either '
+                      'consistent sign convention accepted'],
+         quick_shards=8, thorough_shards=16)
+
+PIPE_ASSUME = ['neurodsp filter_signal / amp_by_time / detect_bursts_dual_threshold are the definitions of band-pass, '
+               'analytic amplitude and dual-threshold detector',
+               'domain: signal longer than the FIR filter and >= 3 full oscillations (>= 4 peaks and >= 4 troughs of the '
+               'peak-first half-wave reference after boundary trimming)']
+
+register('C01', title='cycle table segmentation',
+         deciding=['compute_features', 'compute_shape_features'],
+         rule='generated: 13 signal families x fs x f_range x filter length (n_cycles | n_seconds | default) x boundary x pad '
+              'x centre x burst method (with min_n_cycles routing) x return_samples, functional API and Bycycle.fit. Oracle: '
+              'row-wise order / inclusive midpoint / bounds / tiling clauses, and table == the peak-first alternating extrema '
+              'sequence of the independent half-wave reference (row count = cycles); an exception inside the domain is a '
+              'violation. Non-trivial = table with >= 3 rows and the signal is not a noiseless sine; distinct by SHA-1 of the '
+              'materialised case.',
+         floors={'quick': {'nontrivial': 100, 'classes': {'tables_vs_reference': 100}}, 'thorough': {'nontrivial': 5000}},
+         assumptions=PIPE_ASSUME, quick_shards=8, thorough_shards=16)
